@@ -100,6 +100,9 @@ def replay_all(built, trs):
     # CHILDREN; where the outcome differs from the plain rendering, the observed step is judged as well
     parts = E.pmap(CO.replay_many, E.chunks([k + (True,) for k in keys if k[1]], 256), procs=16, chunk=1)
     deep = dict(zip([k for k in keys if k[1]], [o for p in parts for o in p]))
+    # ... and on the same parents written with OTHER namespace prefixes (what another serialiser makes of the same document)
+    parts = E.pmap(CO.replay_many, E.chunks([k + (False, True) for k in keys if k[1]], 256), procs=16, chunk=1)
+    alias = dict(zip([k for k in keys if k[1]], [o for p in parts for o in p]))
     steps, extra = [], []
     for i, t in enumerate(trs):
         c = cases[t[0] - 1]
@@ -110,8 +113,11 @@ def replay_all(built, trs):
         o2 = deep.get(key)
         if o2 is not None and (o2["t"] != o["t"] or o2["out"] != o["out"]):
             extra.append({"id": len(trs) + i, "k": t[0], "x": t[1], "op": t[2], "s": t[3], "t": o2["t"], "out": o2["out"], "judged": t[6], "deep": True})
-    replay_all.deep = {"contexts": len(deep), "differing_steps": len(extra)}
-    return steps + extra, len(keys) + len(deep)
+        o3 = alias.get(key)
+        if o3 is not None and (o3["t"] != o["t"] or o3["out"] != o["out"]):
+            extra.append({"id": 2 * len(trs) + i, "k": t[0], "x": t[1], "op": t[2], "s": t[3], "t": o3["t"], "out": o3["out"], "judged": t[6], "alias": True})
+    replay_all.deep = {"contexts": len(deep), "other_prefix_contexts": len(alias), "differing_steps": len(extra)}
+    return steps + extra, len(keys) + len(deep) + len(alias)
 
 
 def validate_steps(work, cpath, steps, tag="obs", size=30000):
@@ -285,7 +291,7 @@ def main() -> int:
         callers = d["remove_callers"] if clause == "RemoveRemovesAll" else d["callers"]
         reported.append(sig)
         rep.reject(sig, {"module": "ChildOrder", "tag": c["tag"], "cls": c["cls"], "xtype": c["xtype"], "prop": d["prop"], "child": d["child"],
-                         "op": w["op"], "from": w["s"], "deep": bool(w.get("deep")), "observed": w["t"], "failing": [clause], "successors": d["succ"],
+                         "op": w["op"], "from": w["s"], "deep": bool(w.get("deep")), "alias": bool(w.get("alias")), "observed": w["t"], "failing": [clause], "successors": d["succ"],
                          "schema_later_members": suggest_fix(c, d), "callers": callers, "xtypes": xtypes},
                    what + "; named by " + ", ".join("%s (%s)" % (k, v[0]) for k, v in sorted(callers.items())))
     if drift:
@@ -389,7 +395,7 @@ def run_replay(rep, work, built, consts, path) -> int:
         raise E.MachineryError("replay: %s no longer declares %s" % (rp["tag"], rp["prop"]))
     d = c["decls"][x]
     CO.URI2PFX = built["uri2pfx"]
-    o = CO.replay_one((c["tag"], tuple(rp["from"]), rp["op"], d["prop"], d["child"], bool(rp.get("deep"))))
+    o = CO.replay_one((c["tag"], tuple(rp["from"]), rp["op"], d["prop"], d["child"], bool(rp.get("deep")), bool(rp.get("alias"))))
     cpath = os.path.join(work, "cases_replay.json")
     with open(cpath, "w") as f:
         json.dump(consts, f)
